@@ -1,6 +1,7 @@
 package main
 
 import (
+	"strings"
 	"flag"
 	"fmt"
 	"os"
@@ -15,6 +16,8 @@ func main() {
 	timeout := flag.Float64("t", 10, "solver timeout seconds")
 	dump := flag.Bool("dump", false, "dump obligations")
 	explain := flag.Bool("explain", false, "explain failed obligations conjunct by conjunct")
+	only := flag.String("only", "", "explain only obligations whose name contains this")
+	maxShow := flag.Int("max", 1000, "max failed obligations to print")
 	flag.Parse()
 	t0 := time.Now()
 	e, err := vc.Load(*repo)
@@ -40,7 +43,10 @@ func main() {
 				if o.Verdict != "unsat" {
 					bad++
 					fmt.Printf("      file %s\n", o.File)
-					if *explain {
+					if bad > *maxShow {
+						continue
+					}
+					if *explain && strings.Contains(o.Name, *only) {
 						for _, l := range ctx.Explain(sc, o) {
 							fmt.Println("        ", l)
 						}
